@@ -489,7 +489,10 @@ class C05(Family):
     # source-text tie (DESIGN 2.5): Generated/CommonTimebase.lean is rewritten from /repo's
     # control/iosys.py on every run and proved equal to the model `common`
     extra_modules = ["CtrlVerif.Props.C05Gen", "CtrlVerif.Props.C05Tree", "CtrlVerif.Props.C05Pred",
-                     "CtrlVerif.Props.C05PredUses"]
+                     "CtrlVerif.Props.C05PredUses",
+                     # source-text tie of the timebase section of bdalg.combine_tf and of _ensure_tf
+                     # (py2lean_combdt): generated head + constructor = the model combineTfDt
+                     "CtrlVerif.Props.C05GenComb"]
 
     def pre_build(self):
         import os
@@ -501,7 +504,10 @@ class C05(Family):
         from core import py2lean_select                      # isdtime / isctime / timebase (C05Pred)
         p3, i3 = py2lean_select.regenerate(repo, leanproj.LEAN, "C05")
         self.gen_info.update(i3)
-        return problems + p2 + p3
+        from core import py2lean_combdt                      # combine_tf / _ensure_tf timebase (C05GenComb)
+        p4, i4 = py2lean_combdt.regenerate(repo, leanproj.LEAN)
+        self.gen_info.update(i4)
+        return problems + p2 + p3 + p4
     exhaustive = True
     exhaustive_quick = False
     externals = []
